@@ -7,7 +7,7 @@ Fields == <<"ds", "clip", "adjust", "thr", "out", "threads", "style">>
 Dom(f) == CASE f = "ds" -> {1, 2, 3, 4} [] f = "clip" -> {0, 2} [] f = "adjust" -> {0, 1, 3} [] f = "thr" -> {0, 1, 4, 50}
             [] f = "out" -> {"bw", "bigWig", "bedGraph", "type-bigwig", "type-BedGraph"} [] f = "threads" -> {1, 4}
             \* how the inputs are named: -b each, -l list file, the kent call `bigWigMerge in1 in2 .. out` with -clip= -adjust= -threshold=, kent -inList
-            [] f = "style" -> {"native", "list", "ucsc", "ucsc-list"}
+            [] f = "style" -> {"native", "list", "ucsc", "ucsc-list", "mixed"}     \* mixed: some inputs with -b, the rest in two -l list files
 \* inputs: per bigWig a list of <<chrom, s, e, v>>
 Inputs(ds) == CASE ds = 1 -> << << <<1, 0, 3, 1>>, <<1, 5, 8, 2>>, <<2, 0, 2, 1>> >>, << <<1, 2, 6, 1>>, <<2, 1, 4, 3>> >> >>
                 [] ds = 2 -> << << <<1, 0, 2, 2>>, <<1, 4, 6, 1>> >>, << <<1, 1, 3, 1>>, <<2, 3, 5, 2>> >>, << <<2, 0, 1, 1>>, <<2, 4, 7, 1>> >> >>
